@@ -16,7 +16,7 @@ pub struct Policy {
     pub statement: OneOrMore<Statement>,
 }
 
-#[derive(Debug, Clone, PartialEq, Eq, Serialize, Deserialize)]
+#[derive(Debug, Clone, PartialEq, Eq, Serialize)]
 pub enum Version {
     #[serde(rename = "2012-10-17")]
     V2012_10_17,
@@ -60,7 +60,7 @@ pub enum Principal {
     Map(IndexMap<String, OneOrMore<String>>),
 }
 
-#[derive(Debug, Clone, PartialEq, Eq, Serialize, Deserialize)]
+#[derive(Debug, Clone, PartialEq, Eq, Serialize)]
 pub enum Effect {
     Allow,
     Deny,
@@ -97,6 +97,54 @@ pub enum WildcardOneOrMore<T> {
     Wildcard,
     One(T),
     More(Vec<T>),
+}
+
+/// Reads one of `names` and returns the value at the same position in `values`.
+/// Only a string is accepted.
+fn deserialize_name<'de, D, T>(deserializer: D, names: &'static [&'static str], values: &'static [T]) -> Result<T, D::Error>
+where
+    D: serde::Deserializer<'de>,
+    T: Clone,
+{
+    struct Visitor<T: 'static>(&'static [&'static str], &'static [T]);
+
+    impl<T: Clone> serde::de::Visitor<'_> for Visitor<T> {
+        type Value = T;
+
+        fn expecting(&self, formatter: &mut std::fmt::Formatter) -> std::fmt::Result {
+            write!(formatter, "one of the strings {:?}", self.0)
+        }
+
+        fn visit_str<E>(self, value: &str) -> Result<Self::Value, E>
+        where
+            E: serde::de::Error,
+        {
+            match self.0.iter().position(|name| *name == value) {
+                Some(idx) => Ok(self.1[idx].clone()),
+                None => Err(serde::de::Error::unknown_variant(value, self.0)),
+            }
+        }
+    }
+
+    deserializer.deserialize_str(Visitor(names, values))
+}
+
+impl<'de> Deserialize<'de> for Version {
+    fn deserialize<D>(deserializer: D) -> Result<Self, D::Error>
+    where
+        D: serde::Deserializer<'de>,
+    {
+        deserialize_name(deserializer, &["2012-10-17", "2008-10-17"], &[Version::V2012_10_17, Version::V2008_10_17])
+    }
+}
+
+impl<'de> Deserialize<'de> for Effect {
+    fn deserialize<D>(deserializer: D) -> Result<Self, D::Error>
+    where
+        D: serde::Deserializer<'de>,
+    {
+        deserialize_name(deserializer, &["Allow", "Deny"], &[Effect::Allow, Effect::Deny])
+    }
 }
 
 impl Serialize for Principal {
@@ -509,6 +557,25 @@ mod tests {
             let de: Effect = serde_json::from_str(str_).unwrap();
             assert_eq!(de, enum_);
         }
+    }
+
+    #[test]
+    fn version_and_effect_are_strings() {
+        assert!(serde_json::from_str::<Version>(r#"{"2012-10-17":null}"#).is_err());
+        assert!(serde_json::from_str::<Version>(r#""2012-10-18""#).is_err());
+        assert!(serde_json::from_str::<Effect>(r#"{"Allow":null}"#).is_err());
+        assert!(serde_json::from_str::<Effect>(r#""allow""#).is_err());
+
+        let rejected = [
+            r#"{"Effect":{"Allow":null},"Action":"s3:GetObject","Resource":"*"}"#,
+            r#"{"Effect":{"Deny":null},"Action":"s3:GetObject","Resource":"*"}"#,
+        ];
+        for json in rejected {
+            assert!(serde_json::from_str::<Statement>(json).is_err(), "{json}");
+        }
+
+        let json = r#"{"Version":{"2012-10-17":null},"Statement":{"Effect":"Allow","Action":"s3:GetObject","Resource":"*"}}"#;
+        assert!(serde_json::from_str::<Policy>(json).is_err());
     }
 
     #[test]
